@@ -43,8 +43,31 @@ def reader_fns(facts):
     return [facts.fns[f] for f in sorted(seen)]
 
 
+# standard-library / chrono operations documented to panic for some argument VALUES (not merely for misuse of types)
+STD_VALUE_PANICS = {
+    "Duration::from_nanos_u128", "Duration::from_secs_f32", "Duration::from_secs_f64", "Duration::new", "Duration::mul_f32",
+    "Duration::mul_f64", "Duration::div_f32", "Duration::div_f64", "Duration::from_mins", "Duration::from_hours", "Duration::from_days",
+    "Duration::from_weeks", "char::from_digit", "Vec::remove", "Vec::insert", "Vec::swap_remove", "Vec::drain", "Vec::split_off",
+    "VecDeque::drain", "VecDeque::split_off", "VecDeque::swap", "String::insert", "String::insert_str", "String::remove", "String::truncate",
+    "String::drain", "String::split_off", "String::replace_range", "str::split_at", "str::split_at_mut", "[T]::chunks", "[T]::chunks_exact",
+    "[T]::chunks_mut", "[T]::chunks_exact_mut", "[T]::windows", "[T]::rchunks", "[T]::swap", "[T]::rotate_left", "[T]::rotate_right",
+    "Iterator::step_by", "NaiveDate::from_ymd", "NaiveTime::from_hms", "NaiveDateTime::from_timestamp", "TimeZone::timestamp",
+    "TimeZone::timestamp_nanos", "TimeZone::timestamp_millis", "TimeDelta::seconds", "TimeDelta::milliseconds", "TimeDelta::days",
+    "TimeDelta::hours", "TimeDelta::minutes", "TimeDelta::weeks", "TimeDelta::new", "BitVec::set", "BitVec::from_elem",
+    "ArrayVec::push", "ArrayVec::insert", "ArrayVec::remove", "ArrayVec::swap_remove", "ArrayVec::drain", "ArrayVec::extend",
+    "ArrayString::push", "ArrayString::push_str", "ArrayString::from", "SmallVec::insert", "SmallVec::remove", "SmallVec::drain",
+}
+
+
+def _last2(c):
+    parts = re.sub(r"<[^<>]*>", "", re.sub(r"<[^<>]*>", "", c)).split("::")
+    return "::".join(parts[-2:]) if len(parts) >= 2 else c
+
+
 def panic_kind(x):
     c = callee(x) or ""
+    if _last2(c) in STD_VALUE_PANICS and not c.startswith("savefile"):
+        return "stdpanic:" + _last2(c)
     if c in PANICS:
         return "panic:" + c.split("::")[-1]
     if c in ("core::option::Option::unwrap", "core::option::Option::expect", "core::result::Result::unwrap",
